@@ -487,6 +487,23 @@ def _payload(m, lv, bi, b, payload, nprng):
                 t[zero] = 0.0
                 arr[..., f] = t
         return arr
+    if payload == "thermo_trace":
+        # a preheated, almost uniform mixture: temperature and the major species agree to 1e-7 (relative) from cell to
+        # cell, the radicals and other trace species (1e-14 .. 5e-9) vary by orders of magnitude - a box that passes
+        # for uniform under np.allclose's default tolerances although its reaction rates differ cell by cell
+        arr = nprng.random(shp) + 0.1
+        ys = [f for f, n in enumerate(m.names) if n.startswith("Y(")]
+        major = {"Y(H2)": 0.028, "Y(O2)": 0.226, "Y(N2)": 0.745}
+        for f in ys:
+            n = m.names[f]
+            if n in major:
+                arr[..., f] = major[n] * (1.0 + 1e-7 * (nprng.random(b.shape) - 0.5))
+            else:
+                arr[..., f] = 10.0 ** nprng.uniform(-14.0, -8.3, b.shape)
+        for f, n in enumerate(m.names):
+            if n == "temp":
+                arr[..., f] = 1400.0 * (1.0 + 1e-7 * (nprng.random(b.shape) - 0.5))
+        return arr
     if payload == "affine":
         # names decide: ax/ay/az affine in one coordinate; tag = level/box/cell tag; else random
         arr = nprng.standard_normal(shp)
